@@ -95,6 +95,9 @@ pub struct DepthFirstSearch {
     executor: RuleExecutor,
     max_solutions: usize,
     solutions: Vec<Solution>,
+    /// Facts as they were when the first solution was found (only kept while
+    /// searching for further solutions, i.e. when max_solutions > 1)
+    first_solution_facts: Option<crate::engine::facts::FactsSnapshot>,
     proof_graph: Option<SharedProofGraph>,
 }
 
@@ -108,6 +111,7 @@ impl DepthFirstSearch {
             executor: RuleExecutor::new_with_inserter(kb, None),
             max_solutions: 1,
             solutions: Vec::new(),
+            first_solution_facts: None,
             proof_graph: None,
         }
     }
@@ -177,6 +181,7 @@ impl DepthFirstSearch {
             executor: RuleExecutor::new_with_inserter(kb, inserter),
             max_solutions: 1,
             solutions: Vec::new(),
+            first_solution_facts: None,
             proof_graph,
         }
     }
@@ -191,6 +196,7 @@ impl DepthFirstSearch {
         self.goals_explored = 0;
         self.path.clear();
         self.solutions.clear();
+        self.first_solution_facts = None;
 
         let success = self.search_recursive_with_execution(goal, facts, kb, 0);
 
@@ -302,7 +308,12 @@ impl DepthFirstSearch {
                             return true;
                         }
 
-                        // Otherwise (max_solutions > 1 and not enough yet), rollback and continue
+                        // Otherwise (max_solutions > 1 and not enough yet), rollback and continue.
+                        // Remember the facts of the first solution: they are handed back
+                        // if the search ends with fewer than max_solutions proofs.
+                        if self.first_solution_facts.is_none() {
+                            self.first_solution_facts = Some(facts.snapshot());
+                        }
                         facts.rollback_undo_frame();
                         self.path.pop();
                         continue;
@@ -337,6 +348,9 @@ impl DepthFirstSearch {
                                     }
 
                                     // Otherwise, rollback and continue searching
+                                    if self.first_solution_facts.is_none() {
+                                        self.first_solution_facts = Some(facts.snapshot());
+                                    }
                                     facts.rollback_undo_frame();
                                     self.path.pop();
                                     continue;
@@ -388,6 +402,21 @@ impl DepthFirstSearch {
         // This only applies to the root goal: `solutions` holds proofs of the root goal, so a
         // sub-goal (or a parent whose candidates all failed) must not inherit them.
         if depth == 0 && !self.solutions.is_empty() {
+            // Every solution found so far was rolled back to keep searching. The query
+            // is reported provable, so hand back the facts of the first proof (through
+            // set/remove, so that undo frames of the caller still see the changes).
+            if let Some(snapshot) = self.first_solution_facts.take() {
+                for (key, value) in &snapshot.data {
+                    if facts.get(key).as_ref() != Some(value) {
+                        facts.set(key, value.clone());
+                    }
+                }
+                for key in facts.get_all_facts().keys() {
+                    if !snapshot.data.contains_key(key) {
+                        facts.remove(key);
+                    }
+                }
+            }
             goal.status = GoalStatus::Proven;
             // For negated goals, finding a proof means negation fails
             return !goal.is_negated;
